@@ -36,16 +36,23 @@ structure Stats where
 def Stats.bump (s : Stats) (k : String) : Stats :=
   { s with counts := s.counts.insert k (s.counts.getD k 0 + 1) }
 
-partial def loop (h : IO.FS.Stream) (out : IO.FS.Stream) (st : Stats) (maxReport : Nat) : IO Stats := do
+partial def loop (h : IO.FS.Stream) (out : IO.FS.Stream) (st : Stats) (tbl : TextTable) (maxReport : Nat) : IO Stats := do
   let line ← h.getLine
   if line.isEmpty then return st
   let line := line.trimAscii.toString
   if line.isEmpty then
-    loop h out st maxReport
+    loop h out st tbl maxReport
+  else if line.startsWith "unit " || line.startsWith "quantity " || line.startsWith "base " then
+    -- table rows (the Lean-generated dump) precede the cases of the text drivers
+    match tbl.absorb line with
+    | some t => loop h out st t maxReport
+    | none =>
+      out.putStrLn s!"BAD 0 :: {line}"
+      loop h out { st with bad := st.bad + 1 } tbl maxReport
   else
     let lineno := st.lines + 1
     let mut st := { st with lines := lineno }
-    match handleLine line with
+    match handleLine tbl line with
     | none =>
       st := { st with bad := st.bad + 1 }
       if st.bad ≤ maxReport then out.putStrLn s!"BAD {lineno} :: {line}"
@@ -78,12 +85,12 @@ partial def loop (h : IO.FS.Stream) (out : IO.FS.Stream) (st : Stats) (maxReport
           if n < maxReport then
             st := { st with reported := st.reported.insert s!"P{tag}" (n + 1) }
             out.putStrLn s!"PROP {lineno} {tag} {why} :: {line}"
-    loop h out st maxReport
+    loop h out st tbl maxReport
 
 def main (_args : List String) : IO UInt32 := do
   let stdin ← IO.getStdin
   let stdout ← IO.getStdout
-  let st ← loop stdin stdout {} 25
+  let st ← loop stdin stdout {} {} 25
   for (k, n) in st.counts.toList do
     stdout.putStrLn s!"COUNT {k} {n}"
   stdout.putStrLn s!"SUMMARY lines={st.lines} checks={st.checks} ok={st.ok} diff={st.diff} prop={st.prop} guard={st.guard} bad={st.bad} nontrivial={st.nontrivial}"
